@@ -498,6 +498,8 @@ def make_doc(spec, terms_key='std'):
         hdr[13] = isa['id']
         if isa.get('ta1') is not None:
             hdr[14] = isa['ta1']
+        if isa.get('isa11') is not None:
+            hdr[11] = isa['isa11']
         if isa.get('snd') is not None:
             hdr[6] = isa['snd'].ljust(15)[:15]
         lines.append(L(hdr, blank=isa.get('blank', False)))
@@ -630,7 +632,7 @@ SET_FAULTS = ['ele_plain', 'ele_LONG', 'ele_srcsub', 'ele_TERM', 'ele_ELE', 'ele
               'se_omit', 'se_trail', 'se_blank', 'se_extra_ele', 'seg_two_errors']
 GROUP_FAULTS = ['gs_blank', 'gs_trail', 'gs_dup_id', 'gs06_long', 'gs06_sep', 'gs08_bad', 'ge_cnt', 'ge_id', 'ge_omit', 'ge_trail', 'ge_blank', 'ge_extra_ele',
                 'stray_before_st', 'stray_between_sets', 'stray_after_ge', 'stray_before_ge']
-ISA_FAULTS = ['isa_dup_id', 'iea_cnt', 'iea_id', 'iea_omit', 'iea_trail', 'ta1', 'cut1', 'cut2', 'cut3', 'cut_mid']
+ISA_FAULTS = ['isa11_sep', 'isa_dup_id', 'iea_cnt', 'iea_id', 'iea_omit', 'iea_trail', 'ta1', 'cut1', 'cut2', 'cut3', 'cut_mid']
 CRASH_FAULTS = ['ge_nonnum']
 
 
@@ -736,6 +738,13 @@ def apply_fault(spec, f, ii, gi, si, terms_key, rnd):
             mut.append(('st_ele', 2, Raw('')))
         else:
             mut.append(('st_trunc', 2))
+    elif f == 'isa11_sep':
+        # ISA11 (repetition separator / standards id) of the SOURCE is a separator of the acknowledgement
+        t = TERMS[terms_key]
+        seps = [c for c in ('*', ':', '~') if c not in t]
+        if not seps:
+            return False
+        isa['isa11'] = rnd.choice(seps)
     elif f in ('st02_sep', 'st03_sep', 'segid_sep', 'gs06_sep'):
         # values the acknowledgement echoes OUTSIDE AK404/IK404 - control numbers, segment identifiers - holding separators of the
         # acknowledgement itself (possible when the source uses other ones)
